@@ -48,7 +48,7 @@ CUSTOM_SCHEMES = ["apr_md5_crypt", "md5_crypt", "sha256_crypt", "des_crypt", "ld
 # default_scheme= aliases of HtpasswdFile, as documented (a bcrypt backend is available on this image)
 DS_ALIASES = {"portable_apache_22": "apr_md5_crypt", "linux_apache_22": "sha256_crypt", "portable": "bcrypt", "portable_apache_24": "bcrypt",
               "linux_apache_24": "bcrypt", "host": "bcrypt", "host_apache_24": "bcrypt"}
-BAD_NAMES = ["a:b", "a\nb", "a\rb", "a\tb", "a\x00b", "x" * 256, ":", "\n"]
+BAD_NAMES = ["a:b", "a\nb", "a\rb", "a\tb", "a\x00b", "x" * 256, ":", "\n", "é" * 128]  # (the last one: 128 characters, 256 UTF-8 bytes)
 
 
 # ---------------------------------------------------------------------------------------------
@@ -876,6 +876,8 @@ class _W:
         ht = o["ht"]
         m = op["method"]
         name = op["name"]
+        if not name.isascii() and self.enc != "utf-8":
+            return  # (the over-long multi-byte name is only over-long in a multi-byte encoding)
         if self.nf == 2 and (op["which"] == "realm" or m == "delete_realm"):
             return
         if m == "users" and self.nf == 2:
